@@ -24,7 +24,7 @@ from commonroad.scenario_definition.protobuf_format.generated_scripts import com
 from crkit import build, gen
 from crkit.abstract import inventory
 from simkit.engine import Client, HarnessError, Property, RunBase, Violation
-from simkit.seams import Seams, SimClock, in_fork
+from simkit.seams import Seams, SimClock, get_zygote, in_fork
 
 SCRATCH_ROOT = "/dev/shm" if os.path.isdir("/dev/shm") else tempfile.gettempdir()
 FMT = {"xml": FileFormat.XML, "pb": FileFormat.PROTOBUF}
@@ -74,6 +74,53 @@ def do_write(w, path, mode, method, validate):
         w.write_scenario_to_file(path, MODE[mode])
 
 
+def pristine_write(payload):
+    """Runs in a grandchild of the zygote (a process in which no run ever executed): build the scenario from its
+    spec, re-apply the input mutations, construct the writer with the given arguments and write at once."""
+    import logging
+    import warnings
+
+    warnings.simplefilter("ignore")
+    logging.disable(logging.CRITICAL)
+    sys_stdout = os.dup(1)
+    devnull = os.open(os.devnull, os.O_WRONLY)
+    os.dup2(devnull, 1)
+    d = tempfile.mkdtemp(prefix="c15-twin-", dir=SCRATCH_ROOT)
+    try:
+        clock = SimClock(datetime.datetime.fromisoformat(payload["clock"]))
+        seams = Seams(clock)
+        scn = build.build_scenario(payload["scenario"])
+        pps = build.build_pps(payload["pps"])
+        for m in payload["mutations"]:
+            apply_input_mutation(scn, pps, m)
+        fault = payload.get("fault") or {}
+        path = os.path.join(d, "missing" if "nodir" in fault else "", "twin" + FMT[payload["args"]["fmt"]].value)
+        if payload.get("target_is_dir"):
+            os.makedirs(path)
+        if "ioerr" in fault:
+            seams.open_shim.arm(fault["ioerr"])
+        w = make_writer(scn, pps, payload["args"])
+        do_write(w, path, "ALWAYS", payload["method"], payload["validate"])
+        with open(path, "rb") as f:
+            return f.read()
+    finally:
+        os.dup2(sys_stdout, 1)
+        shutil.rmtree(d, ignore_errors=True)
+
+
+def apply_input_mutation(scn, pps, op):
+    import numpy as np
+
+    if op["how"] == "translate":
+        # the network only: Scenario.translate_rotate raises for environment obstacles (C05's business)
+        scn.lanelet_network.translate_rotate(np.array(op["d"], dtype=float), 0.0)
+        pps.translate_rotate(np.array(op["d"], dtype=float), 0.0)
+    elif op["how"] == "remove_obstacle":
+        obs = scn.obstacles
+        if obs:
+            scn.remove_obstacle(obs[0])
+
+
 def _tag(op, w):
     return f"{op['method']}[{w['fmt']}]"
 
@@ -92,6 +139,8 @@ class Run(RunBase):
         self.last_construct = None
         self.step = 0
         self.version = {k: 0 for k in self.scn}  # bumped when a scenario (a writer INPUT) is changed
+        self.mutations = {k: [] for k in self.scn}  # re-applied by the pristine twin
+        self.zygote = get_zygote()
 
     def close(self):
         self.seams.remove()
@@ -144,19 +193,9 @@ class Run(RunBase):
     def _op_mutate_scn(self, op):
         """The scenario is an input of the writer: after it changed, the writer must write the CURRENT content
         (no copy taken at construction time, no cached document)."""
-        import numpy as np
-
         scn, pps = self.scn[op["scn"]]
-        if op["how"] == "translate":
-            # the network only: Scenario.translate_rotate raises for environment obstacles (C05's business)
-            scn.lanelet_network.translate_rotate(np.array(op["d"], dtype=float), 0.0)
-            pps.translate_rotate(np.array(op["d"], dtype=float), 0.0)
-        elif op["how"] == "author":
-            scn.author = op["value"]
-        elif op["how"] == "remove_obstacle":
-            obs = scn.obstacles
-            if obs:
-                scn.remove_obstacle(obs[0])
+        apply_input_mutation(scn, pps, op)
+        self.mutations[op["scn"]].append({k: v for k, v in op.items() if k in ("how", "d")})
         self.version[op["scn"]] += 1
         for rec in self.writers.values():
             if rec["scn"] == op["scn"]:
@@ -201,26 +240,22 @@ class Run(RunBase):
         if "ioerr" in fault and args["fmt"] != "pb":
             raise HarnessError("ioerr fault on a non-protobuf writer")
 
-        # --- the pristine twin: same arguments, constructed and used with nothing in between, in a fork
-        def twin():
-            if "ioerr" in fault:
-                self.seams.open_shim.arm(fault["ioerr"])
-            tw = make_writer(scn, pps, args)
-            do_write(tw, twin_path, "ALWAYS", method, validate)
-            with open(twin_path, "rb") as f:
-                return f.read()
-
+        # --- the pristine twin: a writer with the same arguments, constructed and used with nothing in between, in
+        #     a process that never executed a run (simkit.seams.Zygote): nothing the runs of this process left
+        #     behind (settings, caches, class attributes) can reach it
         if mode == "SKIP" and existed:
             twin_res = None
         else:
-            if os.path.isdir(path):
-                os.makedirs(twin_path, exist_ok=True)  # the twin meets the same obstacle: a directory at its target
+            target_is_dir = os.path.isdir(path)
+            if target_is_dir:
                 self.probe("target-is-a-directory")
-            twin_res = in_fork(twin)
-            if os.path.isdir(twin_path):
-                shutil.rmtree(twin_path, ignore_errors=True)
-            elif os.path.exists(twin_path):
-                os.remove(twin_path)
+            u = self.universe["scenarios"][rec["scn"]]
+            twin_res = self.zygote.call("props.c15_writers:pristine_write", {
+                "scenario": u["scenario"], "pps": u["pps"], "mutations": self.mutations[rec["scn"]], "args": args,
+                "method": method, "validate": validate, "fault": fault, "clock": self.clock.now.isoformat(),
+                "target_is_dir": target_is_dir})
+            if twin_res[0] == "exc" and twin_res[1] == "ZygoteFailure":
+                raise HarnessError(f"pristine twin failed: {twin_res[2]}")
 
         # --- the write under test
         if "ioerr" in fault:
@@ -435,6 +470,8 @@ def _float(rng):
 
 class C15(Property):
     id = "C15"
+    needs_zygote = True
+    isolate_runs = True  # every run (and every replay) executes in a process that never ran anything before
     title = "A file writer's output depends only on its own inputs"
     tiers = {"quick": {"runs": 2400, "wall": 240, "chunk": 10}, "thorough": {"runs": 90000, "wall": 1700, "chunk": 25}}
     expected_probes = ["same-writer-writes-again", "foreign-construct-other-precision-between",
